@@ -750,6 +750,8 @@ def execute(case):
                 probes["assemble-with-malformed-citation"] += 1
             if cit:
                 probes["assemble-with-citations"] += 1
+            if any(rd.get("origin_on_fragment_start") for rd in cat["pool"] if rd["id"] in recs):
+                probes["input-origin-on-fragment-start"] += 1
             if any(len(set(rd.get("references") or [])) < len(rd.get("references") or []) for rd in cat["pool"] if rd["id"] in recs):
                 probes["assemble-with-duplicate-reference-in-one-record"] += 1
             if len(set(op["mods"])) < len(op["mods"]):
@@ -878,9 +880,11 @@ def _gen_features(g, rid, n, seg, n_refs, uid_prefix):
     return feats
 
 
-def _rotate_record(g, rd):
+def _rotate_record(g, rd, seg=None):
     """Rotate sequence + feature coordinates so that the structure may span the
-    origin while no feature does."""
+    origin while no feature does.  Some records get their origin exactly on the
+    first nucleotide of the retained fragment (the rotation moclo performs to
+    extract it is then the identity)."""
     n = len(rd["seq"])
     blocked = set()
     for f in rd["features"]:
@@ -891,6 +895,9 @@ def _rotate_record(g, rd):
     if not free or g.random() < 0.3:
         return rd
     o = g.choice(free)
+    if seg is not None and seg["retained"][0] in free and g.random() < 0.2:
+        o = seg["retained"][0]
+        rd["origin_on_fragment_start"] = True
     rd["seq"] = rd["seq"][o:] + rd["seq"][:o]
     if rd.get("broken_seq"):
         rd["broken_seq"] = rd["broken_seq"][o:] + rd["broken_seq"][:o]
@@ -951,7 +958,7 @@ def gen_scenario(g, kind=None):
             f_["citation"] = None
             f_["citation_raw"] = g.choice([["[%d]" % (len(rl or []) + 3)], ["7"], ["[x]"], ["[1]", "[%d]" % (len(rl or []) + 2)] if rl else ["[2]"]])
         rd["broken_seq"] = _break_site(seq, geom["site"])
-        _rotate_record(g, rd)
+        _rotate_record(g, rd, seg)
         pool.append(rd)
         wrappers.append({"h": "w:" + rid, "cls": cls, "rec": rid})
         return rd
@@ -1245,7 +1252,7 @@ def catalogue_summary(case):
 
 
 EXPECTED_PROBES = {
-    "C07": ["unused-modules-raised-as-error", "assemble-with-duplicate-reference-in-one-record", "assemble-with-malformed-citation", "probe:target_sequence", "edit:citation", "assemble-with-citations", "refinement-after-failure", "refinement-after-injected-fault", "same-instance-twice", "missing-module", "unused-modules-warning", "stale-wrapper-used", "edit:edit_seq", "rewrap"],
+    "C07": ["input-origin-on-fragment-start", "unused-modules-raised-as-error", "assemble-with-duplicate-reference-in-one-record", "assemble-with-malformed-citation", "probe:target_sequence", "edit:citation", "assemble-with-citations", "refinement-after-failure", "refinement-after-injected-fault", "same-instance-twice", "missing-module", "unused-modules-warning", "stale-wrapper-used", "edit:edit_seq", "rewrap"],
     "C10": ["product-carries-citation", "product-with-cited-inputs"],
 }
 
